@@ -37,11 +37,11 @@ func suiteRelay(e *vh.Env) {
 		rng := e.Rng.Sub(i)
 		e.Op("new", "ok")
 		type cl struct {
-			tok   string
-			rid   string // real request ID
-			mrid  int    // model request ID (arrival index)
-			done  chan clientResult
-			got   bool
+			tok  string
+			rid  string // real request ID
+			mrid int    // model request ID (arrival index)
+			done chan clientResult
+			got  bool
 		}
 		var clients []*cl
 		fetched := map[int]*cl{} // worker -> client whose request it holds
